@@ -11,6 +11,8 @@ TRUSTED_BASE = [
 
 FAMILY_ARGS = {
     'admit': {'quick': [], 'thorough': []},
+    'buffer': {'quick': ['-seed', '{seed}', '-n', '3000', '-exhaustive', '5', '-maxlen', '40'],
+               'thorough': ['-seed', '{seed}', '-n', '60000', '-exhaustive', '7', '-maxlen', '300']},
     'cycle': {'quick': ['-seed', '{seed}', '-n', '2000', '-exhaustive', '3', '-maxops', '40'],
               'thorough': ['-seed', '{seed}', '-n', '40000', '-exhaustive', '4', '-maxops', '200']},
 }
@@ -62,6 +64,17 @@ PROPS = {
         'explanation': 'theorems over M-Cycle for all buffers/limits/allowances/slots/orders; implementation tie = exact comparison of batch events',
         'assumptions': ['batch events are emitted synchronously by the processing loop in raise order (WithEmitBatch)',
                         'leftover batches at the end of a cycle come out in Go map order: compared as a set'],
+    },
+    'C15': {
+        'families': ['buffer'],
+        'fields': {'buffer': ['obs', 'panic']},
+        'nontrivial': r'acts=.*E\d+,.*R',
+        'rule': 'buffer family (in-package seam, real v2 buffer in a synctest bubble): every sequence of <=5 (quick) / <=7 (thorough) actions over '
+                '{blocking enqueue, error-mode enqueue, top, skip, remove, shutdown} for capacities 1..3, plus seeded random sequences up to 40/300 actions, capacities 1..4; '
+                'after every action the system settles and returned calls, size and returned operation are compared; non-trivial = at least one blocking enqueue followed by a remove',
+        'explanation': 'L1 buffer + condition-variable machine: bound, FIFO, cursor validity, no lost wake-up, waiters released by shutdown; tie = exhaustive short sequences + random',
+        'assumptions': ['sync.Cond.Signal wakes the longest-waiting caller (runtime notifyList is FIFO)',
+                        'v1 buffer is a Go channel: its bound and blocking behaviour are the runtime\'s; v1 is observed through the Batcher (hist family) only'],
     },
     'C14': {
         'families': ['admit'],
